@@ -135,6 +135,8 @@ impl<R: Read> ChunkedChars<R> {
                         return None;
                     }
                     Ok(n) => read += n,
+                    // As for the first byte: an interrupted read is to be retried.
+                    Err(e) if e.kind() == io::ErrorKind::Interrupted => continue,
                     Err(e) => {
                         self.err.replace(Some(e));
                         return None;
